@@ -16,6 +16,29 @@ var stdHandlers map[string]stdHandler
 var ifaceHandlers = map[string]ifaceHandler{
 	"(context.Context).Value": hCtxValue,
 	"(error).Error":           hErrorString,
+	"(fmt.Stringer).String":   hStringerString,
+	"(context.Context).Err":   hPureIface("ctxerr"),
+	"(context.Context).Done":  hPureIface("ctxdone"),
+	"(context.Context).Deadline": hPureIface("ctxdeadline"),
+}
+
+// hPureIface: an interface method assumed pure; its result is unconstrained.
+func hPureIface(name string) ifaceHandler {
+	return func(x *Exec, fr *Frame, st *State, site ssa.Instruction, recv Val, args []Val, k Kont) {
+		x.assumeNote("assumed contract " + name + ": pure (no caller-visible writes, no panic), result unconstrained")
+		var sig *types.Signature
+		if c, ok := site.(ssa.CallInstruction); ok {
+			sig = c.Common().Signature()
+		}
+		res := freshVal(resultType(sig), name)
+		x.assumeWF(st, res)
+		k(st, res, false)
+	}
+}
+
+func hStringerString(x *Exec, fr *Frame, st *State, site ssa.Instruction, recv Val, args []Val, k Kont) {
+	x.assumeNote("assumed contract (fmt.Stringer).String: pure, returns a string determined by the receiver")
+	k(st, Val{T: types.Typ[types.String], C: []*Term{UF("stringerstr", IntSort, recv.C[0], recv.C[1])}}, false)
 }
 
 // ctx.Value(key): a deterministic function of the context value and the key's dynamic type
@@ -67,6 +90,7 @@ func init() {
 		"fmt.Errorf":               hNewError,
 		"errors.New":               hNewError,
 		"context.WithValue":        hCtxWithValue,
+		"slices.Contains":          hSlicesContains,
 	}
 }
 
@@ -242,4 +266,23 @@ func hCtxWithValue(x *Exec, fr *Frame, st *State, site ssa.Instruction, callee *
 		Eq(UF("ctxval.val", IntSort, res.C[0], res.C[1], kt), UF("ctxval.val", IntSort, parent.C[0], parent.C[1], kt)))),
 		[]*Term{UF("ctxval.typ", IntSort, res.C[0], res.C[1], kt)}, []*Term{UF("ctxval.val", IntSort, res.C[0], res.C[1], kt)}))
 	k(st, res, false)
+}
+
+// containsTerm: exists k. 0 <= k < len(s) && s[k] == v   (the specification of slices.Contains)
+func containsTerm(st *State, s Val, v Val) *Term {
+	et := s.T.Underlying().(*types.Slice).Elem()
+	k := BoundVar("k!contains", BV64)
+	var eqs []*Term
+	for i, c := range layoutOf(et) {
+		name := "[]" + typeKey(et) + "|" + c.Path
+		h := st.heapMap(name, ArraySort(IntSort, ArraySort(BV64, c.Sort)))
+		e := Select(Select(h, s.Arr()), BVBin("bvadd", s.Off(), k))
+		eqs = append(eqs, Eq(e, v.C[i]))
+	}
+	return Exists([]*Term{k}, And(append([]*Term{BVCmp("bvsle", bv64(0), k), BVCmp("bvslt", k, s.Len())}, eqs...)...))
+}
+
+func hSlicesContains(x *Exec, fr *Frame, st *State, site ssa.Instruction, callee *ssa.Function, args []Val, k Kont) {
+	x.assumeNote("assumed contract slices.Contains: reports whether v is present in s (exists k: s[k] == v); pure")
+	k(st, Val{T: types.Typ[types.Bool], C: []*Term{containsTerm(st, args[0], args[1])}}, false)
 }
